@@ -336,6 +336,14 @@ class MetaFacts:
                                 return True
         if c[0] == 'param':
             return self.param_all_callers(fw.fn, c[1], lambda t, cc, w: self.nonempty(t, cc, w, depth + 1))
+        if c[0] == 'cparam':
+            # the parameter of a closure passed to Option::map / and_then / .. is the payload of the receiver
+            for e in ctx:
+                if e['k'] == 'closure' and e.get('id') == c[1] and e.get('callee') in ('map', 'and_then', 'filter', 'inspect', 'map_or', 'map_or_else') \
+                        and e.get('recv') is not None:
+                    for ev in fw.events:
+                        if ev.kind == 'closure' and ev.entry is e:
+                            return self.nonempty(('some_of', tm.term(e['recv'], ev.scope)), ctx, fw, depth + 1)
         if c[0] == 'some_of' and isinstance(c[1], tuple) and c[1][0] == 'mcall' and c[1][2] in ('get', 'get_mut'):
             mapterm = c[1][1]
             if isinstance(mapterm, tuple) and mapterm[0] == 'var':
